@@ -159,6 +159,38 @@ def playback(dst, h, extra_flags):
     return parse_playback(out)
 
 
+
+def native_playback(dst, h, extra_flags, timeout=1500):
+    """Re-run the failing harness with --concrete-playback=inplace (Kani writes a #[test] with the concrete values of
+    every kani::any() next to the harness), then EXECUTE that test natively with `cargo kani playback`.  The harness
+    calls the real text (path-included real file / real crate, or the text extracted from /repo next to shim types),
+    so a failing native run is the verifier's counterexample reproduced by execution.  -> dict or None"""
+    cmd = ["cargo", "kani"] + KANI_FLAGS + extra_flags + ["--harness", h["name"], "--exact"] + _solver_flags(h) + [
+        "-Z", "concrete-playback", "--concrete-playback=inplace"]
+    status, rc, out, wall = _run(cmd, dst, h.get("timeout_s", 600) * 2, h.get("mem_gb", 16))
+    names = re.findall(r"^\s*-\s*(kani_concrete_playback_[A-Za-z0-9_]+)\.?\s*$", out, re.M)
+    if not names:
+        return None
+    lib = open(os.path.join(dst, "src", "lib.rs")).read()
+    res = None
+    for tname in names:
+        m = re.search(r"(#\[test\]\s*fn %s\(\)\s*\{.*?\n\})" % re.escape(tname), lib, re.S)
+        text = m.group(1) if m else ""
+        st2, rc2, out2, wall2 = _run(["cargo", "kani", "playback", "-Z", "concrete-playback", "--", tname, "--exact", "--nocapture"]
+                                     if False else
+                                     ["cargo", "kani", "playback", "-Z", "concrete-playback", "--", tname], dst, timeout, None)
+        failed = bool(re.search(r"test result: FAILED", out2)) and tname in out2
+        pm = re.search(r"panicked at ([^\n]*)\n([^\n]*)", out2)
+        r = {"kind": "kani-concrete-playback-executed-natively", "test_name": tname, "unit_test": text[:200000],
+             "harness": h["name"], "reproduced": failed,
+             "panic": (pm.group(1) + " :: " + pm.group(2)).strip()[:400] if pm else None,
+             "cmd": "cd %s && cargo kani playback -Z concrete-playback -- %s" % (dst, tname), "wall_s": round(wall2, 1)}
+        if failed and (pm is None or "cover" not in (pm.group(2) or "")):
+            return r
+        res = res or r
+    return res
+
+
 def parse_playback(out):
     """Kani prints one unit test per failed check AND per satisfied cover; keep the first one that belongs to a
     failed assertion/overflow check (not a cover).  -> dict with the little-endian bytes of every kani::any()."""
@@ -277,6 +309,18 @@ def run_unit(u, repo, tier, seed, relock=False, prop=None):
                     o["detail"] += "\nKani concrete playback (values of kani::any() in call order): %s" % w["values_in_order_of_kani_any"]
                 # the counterexample counts as a witness only once it fails on the REAL function (native crate with a
                 # path dependency on /repo, built on demand); otherwise the violation is reported without an input
+                if not u.get("replay_native") or u.get("always_native_playback"):
+                    npb = native_playback(dst, h, extra)
+                    if npb and npb.get("reproduced"):
+                        npb["found"] = True
+                        npb["key"] = "kani-playback:%s:%s" % (name, h["name"])
+                        npb["fidelity"] = u.get("playback_fidelity", "executed natively on the text extracted from /repo, compiled next to the unit's shim types")
+                        npb["replayed_against"] = npb["fidelity"]
+                        npb["values_of_kani_any_in_call_order"] = (w or {}).get("values_in_order_of_kani_any")
+                        o["witness"] = npb
+                        o["detail"] += "\ncounterexample executed natively (cargo kani playback): test %s FAILED: %s" % (npb["test_name"], npb.get("panic"))
+                    elif npb:
+                        o["detail"] += "\nnative execution of Kani's counterexample did not fail: %s" % json.dumps(npb)[:400]
                 if u.get("replay_native"):
                     import witness
                     d = witness.run_native(repo, u["replay_native"], "%s:%s" % (name, h["name"]), seed,
